@@ -16,6 +16,7 @@ def wstateToJson (st : WState) : Json :=
     ("recipes", Json.arr (st.nodes.map recipeToJson).toArray),
     ("edges", Json.arr (st.edges.map (fun (p, c, l) => Json.arr #[Json.num p, Json.num c, charsToJson l])).toArray),
     ("full", Json.bool st.full), ("components", Json.num (components st)),
+    ("depth", Json.num (Plan.depthOf st.edges st.nodes.length)),
     ("leaves", Json.arr ((Plan.outLeaves st.edges (List.range st.nodes.length)).map (fun (i : Nat) => Json.num i)).toArray)]
 
 def frontToJson (r : Model.FrontResult) : Json :=
